@@ -559,12 +559,16 @@ pub fn gen_c16(seed: u64, thorough: bool) -> Vec<CaseSpec> {
                         let mut sp = SessP::default();
                         sp.prop = "C16".into();
                         sp.oti = OtiP { sch, e: 256, b: 4, p: if sch == Scheme::NoCode { 0 } else { 1 }, ifti: true };
+                        if sch == Scheme::Raptor {
+                            // a Raptor block needs >= 4 source symbols (raptor-block-lt4), the FDT included
+                            sp.oti = OtiP { sch, e: 64, b: 8, p: 1, ifti: true };
+                        }
                         sp.full = full;
                         sp.w = 1 + rng.below(3) as u32;
                         sp.mux = vec![*rng.pick(&[1u32, 2])];
                         sp.dt = 1000;
                         sp.idle = 1000;
-                        sp.fcar = Car::Delay(*rng.pick(&[1000u64, 5000]));
+                        sp.fcar = Car::Delay(*rng.pick(&[5000u64, 20_000]));
                         sp.n = 700;
                         for j in 0..nobj {
                             let mut ob = ObjP::default();
